@@ -2,6 +2,7 @@ package rules
 
 import (
 	"fmt"
+	"go/token"
 	"strings"
 
 	"golang.org/x/tools/go/ssa"
@@ -469,9 +470,32 @@ func c131enc(c *an.Ctx, p *an.Prog) {
 	if !need(c, "C13.1", fn, "sasl.encodeLengthEncodedStrings") {
 		return
 	}
-	hdrs := loopHeaders(fn)
+	// the loop that frames the parts; loops that only add up lengths (a capacity computed beforehand) frame nothing
+	var hdrs []*ssa.BasicBlock
+	for _, h := range loopHeaders(fn) {
+		if !lengthSumLoop(fn, h) {
+			hdrs = append(hdrs, h)
+		}
+	}
 	if len(hdrs) != 1 {
 		c.Undecided("C13.1", fnKey(fn)+"|loop", p.Pos(fn.Pos()), "UNRESOLVED: expected one loop over the parts")
+		return
+	}
+	// two forms: each iteration writes its own frame (a buffer and a Write per part), or each iteration appends its
+	// frame to one buffer that is handed to the writer once, after the loop
+	perPart := false
+	an.EnumPathsTo(fn, hdrs[0], nil, hdrs[0], func(s *an.PathState) {
+		if s.StopBlock == nil {
+			return
+		}
+		for _, e := range s.Events {
+			if e.Kind == "call" && strings.HasSuffix(e.Callee, "io.Writer.Write") {
+				perPart = true
+			}
+		}
+	})
+	if !perPart {
+		c131encOneWrite(c, p, fn, hdrs[0])
 		return
 	}
 	var bad []string
@@ -601,6 +625,259 @@ func c131enc(c *an.Ctx, p *an.Prog) {
 		}
 	})
 	c.Check(len(bad) == 0 && n > 0, "C13.1", fnKey(fn)+"|frame", p.Pos(fn.Pos()), "per part: make(2+len), BigEndian.PutUint16(len(part)), copy to [2:], Write, error checked, >65535 refused", strings.Join(uniqS(bad), "; "))
+}
+
+// lengthSumLoop: every iteration of the loop at h that goes round again does nothing but take lengths (no store, no call
+// other than len/cap) and the loop can be left: it can only compute a size.
+func lengthSumLoop(fn *ssa.Function, h *ssa.BasicBlock) bool {
+	pure, n, nExit := true, 0, 0
+	er := an.EnumPathsTo(fn, h, nil, h, func(s *an.PathState) {
+		if s.StopBlock == nil {
+			nExit++
+			return
+		}
+		n++
+		for _, e := range s.Events {
+			if !(e.Kind == "call" && !e.Deferred && (e.Callee == "builtin len" || e.Callee == "builtin cap")) {
+				pure = false
+			}
+		}
+	})
+	return pure && n > 0 && nExit > 0 && er.Complete
+}
+
+// c131encOneWrite: the framing rule for an encoder that builds the whole message in one buffer and writes it once.
+// Demanded, exactly as in the per-part form: for every part, in order, a 2-byte big-endian length of that same part
+// followed by its bytes; parts over 65535 bytes refused; everything handed to the writer, its error checked. Here:
+//   - the buffer is a loop-carried value that starts empty (a fresh make(…, 0, …) or nil);
+//   - every iteration that goes round again turns it into append(BigEndian.AppendUint16(buf, uint16(len(part))), part...)
+//     with part = parts[i], i the loop's counter (starting at the first part, stepping by one, below len(parts)),
+//     under len(part) <= 65535, and touches the buffer in no other way;
+//   - the loop is left without an error only by the counter reaching len(parts), and every such exit hands exactly
+//     the buffer to writer.Write — the only Write of the function — and returns that call's error or has tested it.
+func c131encOneWrite(c *an.Ctx, p *an.Prog, fn *ssa.Function, h *ssa.BasicBlock) {
+	var bad []string
+	writer, partsP := s0T(fn.Params[0]), fn.Params[1]
+	var acc, ctr *ssa.Phi
+	ctrNext, rangeIdx := "", false // the counter value tested against len(parts): ctr for `i := 0; i < n; i++`, ctr+1 (ctr starting at -1) for a range loop
+	headerPhi := func(s *an.PathState, k string) *ssa.Phi {
+		for _, in := range h.Instrs {
+			if ph, ok := in.(*ssa.Phi); ok && s.T(ph).K == k {
+				return ph
+			}
+		}
+		return nil
+	}
+	nIter := 0
+	an.EnumPathsTo(fn, h, nil, h, func(s *an.PathState) {
+		if s.StopBlock == nil {
+			return
+		}
+		nIter++
+		var au, ap *an.Event
+		auAt, apAt := -1, -1
+		for i := range s.Events {
+			e := &s.Events[i]
+			if e.Kind != "call" {
+				continue
+			}
+			switch {
+			case strings.HasSuffix(e.Callee, ".AppendUint16"):
+				if au != nil {
+					bad = append(bad, "an iteration appends two length prefixes")
+				}
+				au, auAt = e, i
+			case e.Callee == "builtin append":
+				if ap != nil {
+					bad = append(bad, "an iteration appends more than the part")
+				}
+				ap, apAt = e, i
+			}
+		}
+		if au == nil || ap == nil || auAt > apAt || len(au.Args) != 3 || len(ap.Args) != 2 {
+			bad = append(bad, "an iteration does not perform AppendUint16(buf, len(part)) + append(buf, part...)")
+			return
+		}
+		if au.Callee != "(encoding/binary.bigEndian).AppendUint16" || !strings.Contains(au.Args[0].K, "BigEndian") {
+			bad = append(bad, "length prefix is not big-endian")
+		}
+		buf := au.Args[1]
+		ph := headerPhi(s, buf.K)
+		if ph == nil || (acc != nil && ph != acc) {
+			bad = append(bad, "the length prefix is not appended to the message buffer carried by the loop: "+buf.K)
+			return
+		}
+		acc = ph
+		l := au.Args[2]
+		for l.Op == "numconv" {
+			l = l.Args[0]
+		}
+		ll, _ := l.CallOf()
+		if ll == nil || ll.Aux != "builtin len" || len(ll.Args) != 1 {
+			bad = append(bad, "the length prefix is not len() of the part being written")
+			return
+		}
+		part := ll.Args[0]
+		if ap.Args[0].K != au.Res.K {
+			bad = append(bad, "the payload does not follow its length prefix directly")
+		}
+		if ap.Args[1].StripConv().K != part.K {
+			bad = append(bad, "the length prefix is not len() of the part being written")
+		}
+		if in := s.PhiIn(acc); in == nil || in.K != ap.Res.K {
+			bad = append(bad, "the buffer carried into the next iteration is not prefix+payload appended to the previous one")
+		}
+		// nothing else touches the buffer
+		touched := func(t *an.Term) bool {
+			return t != nil && t.Contains(func(x *an.Term) bool { return x.K == buf.K || x.K == au.Res.K || x.K == ap.Res.K })
+		}
+		for i := range s.Events {
+			e := &s.Events[i]
+			if e == au || e == ap {
+				continue
+			}
+			for _, a := range e.Args {
+				if touched(a) {
+					bad = append(bad, "the message buffer is used by "+e.Kind+" "+shortName(e.Callee)+" inside the loop")
+				}
+			}
+		}
+		ok16 := false
+		for _, a := range s.Atoms {
+			if a.A.IsCallTo("builtin len") && a.B != nil && a.B.IsConst("65535") && a.Op == "<=" {
+				if lc, _ := a.A.CallOf(); lc.Args[0].K == part.K {
+					ok16 = true
+				}
+			}
+		}
+		if !ok16 {
+			bad = append(bad, "parts longer than 65535 bytes are not refused (the 16-bit length would wrap)")
+		}
+		if !(part.Op == "load" && part.Args[0].Op == "indexaddr" && part.Args[0].Args[0].K == s.T(partsP).K) {
+			bad = append(bad, "part is not an element of the parts parameter")
+			return
+		}
+		// the index is the loop counter: below len(parts) here, one more in the next iteration
+		idx := part.Args[0].Args[1]
+		var cp *ssa.Phi
+		plus1 := false
+		if cp = headerPhi(s, idx.K); cp == nil && idx.Op == "binop" && idx.Aux == "+" && idx.Args[1].IsConst("1") {
+			cp, plus1 = headerPhi(s, idx.Args[0].K), true
+		}
+		if cp == nil || (ctr != nil && cp != ctr) {
+			bad = append(bad, "the part index "+idx.K+" is not the loop counter")
+			return
+		}
+		ctr, ctrNext, rangeIdx = cp, idx.K, plus1
+		if in := s.PhiIn(ctr); in == nil || in.K != "("+s.T(ctr).K+" + c:1)" {
+			bad = append(bad, "the part index does not advance by one per iteration")
+		}
+		okLt := false
+		for _, a := range s.Atoms {
+			if a.B != nil && a.Op == "<" && a.A.K == idx.K && isLenOfParam(a.B, partsP) {
+				okLt = true
+			}
+		}
+		if !okLt {
+			bad = append(bad, "an iteration runs without the part index being below len(parts)")
+		}
+	})
+	if acc == nil || ctr == nil {
+		if len(bad) == 0 {
+			bad = append(bad, "no loop-carried message buffer / part counter found")
+		}
+		c.Check(false, "C13.1", fnKey(fn)+"|frame", p.Pos(fn.Pos()), "", strings.Join(uniqS(bad), "; "))
+		return
+	}
+	// initial values: an empty buffer, the first part
+	nInit := 0
+	var first ssa.Instruction
+	for _, in := range h.Instrs {
+		if _, ok := in.(*ssa.Phi); !ok {
+			first = in
+			break
+		}
+	}
+	an.EnumPaths(fn, nil, first, func(s *an.PathState) {
+		nInit++
+		b0 := s.T(acc)
+		if !(b0.Op == "make" && b0.Aux == "slice" && len(b0.Args) >= 1 && b0.Args[0].IsConst("0")) && !b0.IsConst("nil") {
+			bad = append(bad, "the message buffer does not start empty: "+b0.K)
+		}
+		want := "0"
+		if rangeIdx {
+			want = "-1"
+		}
+		if !s.T(ctr).IsConst(want) {
+			bad = append(bad, "the loop does not start at the first part")
+		}
+		for _, e := range s.Events {
+			if e.Kind == "call" && strings.HasSuffix(e.Callee, "io.Writer.Write") {
+				bad = append(bad, "something is written to the writer before the message")
+			}
+		}
+	})
+	// exits
+	nExit := 0
+	an.EnumPathsTo(fn, h, nil, h, func(s *an.PathState) {
+		if s.StopBlock != nil {
+			return
+		}
+		kind, _ := exitKind(s)
+		if kind == "error" {
+			return
+		}
+		ret := lastReturn(s)
+		if ret == nil {
+			bad = append(bad, "the encoder can panic (path "+s.BlockPath()+")")
+			return
+		}
+		nExit++
+		done := false
+		for _, a := range s.Atoms {
+			if a.B != nil && a.Op == ">=" && a.A.K == ctrNext && isLenOfParam(a.B, partsP) {
+				done = true
+			}
+		}
+		if !done {
+			bad = append(bad, "the loop is left without an error before every part was framed (path "+s.BlockPath()+")")
+		}
+		var wr *an.Event
+		nw := 0
+		for i := range s.Events {
+			e := &s.Events[i]
+			if e.Kind == "call" && strings.HasSuffix(e.Callee, "io.Writer.Write") {
+				nw++
+				wr = e
+				continue
+			}
+			for _, a := range e.Args {
+				if e.Kind != "return" && a != nil && a.Contains(func(x *an.Term) bool { return x.K == s.T(acc).K }) {
+					bad = append(bad, "the message buffer is used by "+e.Kind+" "+shortName(e.Callee)+" after the loop")
+				}
+			}
+		}
+		if nw != 1 || wr.Deferred || len(wr.Args) != 2 || wr.Args[0].K != writer || wr.Args[1].K != s.T(acc).K {
+			bad = append(bad, "the frame is not written to the writer (exactly the message buffer, once)")
+			return
+		}
+		if !extractNil(s, wr.Res, 1) && ret.Args[0].K != extractOf(wr.Res, 1).K {
+			bad = append(bad, "write error not checked")
+		}
+	})
+	if n := len(an.CallsTo(fn, "invoke io.Writer.Write")); n != 1 {
+		bad = append(bad, fmt.Sprintf("%d Write calls in the encoder (one expected)", n))
+	}
+	c.Check(len(bad) == 0 && nIter > 0 && nInit > 0 && nExit > 0, "C13.1", fnKey(fn)+"|frame", p.Pos(fn.Pos()), "one message buffer, starting empty; per part, in order: BigEndian.AppendUint16(len(part)) then the part's bytes, >65535 refused; the buffer is written to the writer once, error returned/checked", strings.Join(uniqS(bad), "; "))
+}
+
+// s0T: the term key of a parameter or header phi outside any path (both are path-independent).
+func s0T(v ssa.Value) string {
+	switch x := v.(type) {
+	case *ssa.Parameter:
+		return "p:" + x.Name()
+	}
+	return ""
 }
 
 func c131split(c *an.Ctx, p *an.Prog) {
@@ -760,11 +1037,24 @@ func c131dec(c *an.Ctx, p *an.Prog) {
 	nOK := 0
 	an.EnumPaths(fn, nil, nil, func(s *an.PathState) {
 		ret := lastReturn(s)
-		if ret == nil || !(ret.Args[0].IsConst("nil") || s.IsNil(ret.Args[0])) {
+		if ret == nil {
+			return
+		}
+		// `return scanner.Err()`: the value handed back is the scanner's own verdict, so the caller sees success
+		// exactly when Err()==nil — the same condition as `if err := scanner.Err(); err != nil { return err }; return nil`.
+		// Such an exit is a success exit (unless the path already knows the value to be non-nil) and has to satisfy
+		// the count condition like any other.
+		retIsErr := false
+		if rv := ret.Args[0]; rv.IsCallTo("(*bufio.Scanner).Err") && !s.NonNil(rv) {
+			if cc, _ := rv.CallOf(); cc != nil && len(cc.Args) == 1 && sameScanner(s, fn, cc.Args[0]) {
+				retIsErr = true
+			}
+		}
+		if !(ret.Args[0].IsConst("nil") || s.IsNil(ret.Args[0]) || retIsErr) {
 			return
 		}
 		nOK++
-		okErr, okCount := false, false
+		okErr, okCount := retIsErr, false
 		for _, a := range s.Atoms {
 			if a.Op == "==" && a.B.IsConst("nil") && a.A.IsCallTo("(*bufio.Scanner).Err") {
 				okErr = true
@@ -778,9 +1068,11 @@ func c131dec(c *an.Ctx, p *an.Prog) {
 				}
 			}
 		}
-		if !okErr {
+		if !okErr || retIsErr {
 			// the other sound shape: the loop is left towards success only by its counter, and every iteration that
-			// continues has scanner.Scan()==true (Scan is true only while the scanner has no error)
+			// continues has scanner.Scan()==true (Scan is true only while the scanner has no error). The same is
+			// demanded when the exit hands back scanner.Err() itself: a nil there says nothing about an iteration
+			// that went on without a token.
 			allScan, nCont := true, 0
 			for _, h := range loopHeaders(fn) {
 				an.EnumPathsTo(fn, h, nil, h, func(it *an.PathState) {
@@ -812,6 +1104,34 @@ func c131dec(c *an.Ctx, p *an.Prog) {
 	c.Check(len(bad) == 0 && nStore == 1 && nOK > 0, "C13.1", fnKey(fn)+"|strip-and-count", p.Pos(fn.Pos()), "tokens from the split function, stored minus exactly 2 bytes; success only with all parts and no scanner error", strings.Join(uniqS(bad), "; "))
 }
 
+// sameScanner: t is the scanner of this decoder — the object that was given the split function on this path.
+func sameScanner(s *an.PathState, fn *ssa.Function, t *an.Term) bool {
+	for _, e := range s.Events {
+		if e.Kind == "call" && e.Callee == "(*bufio.Scanner).Split" && len(e.Args) == 2 && e.Args[0].K == t.K {
+			return true
+		}
+	}
+	return false
+}
+
+// isLenOfParam: t is len(param) — as a call term, or (in single-iteration mode, where the call sits before the loop
+// and was not executed on the path) as the not-yet-evaluated call instruction itself.
+func isLenOfParam(t *an.Term, param *ssa.Parameter) bool {
+	if t == nil {
+		return false
+	}
+	if t.IsCallTo("builtin len") {
+		lc, _ := t.CallOf()
+		return len(lc.Args) == 1 && lc.Args[0].K == "p:"+param.Name()
+	}
+	if call, ok := t.V.(*ssa.Call); ok && t.Op == "other" {
+		if b, ok := call.Common().Value.(*ssa.Builtin); ok && b.Name() == "len" && len(call.Common().Args) == 1 {
+			return call.Common().Args[0] == ssa.Value(param)
+		}
+	}
+	return false
+}
+
 func c132(c *an.Ctx, p *an.Prog) {
 	enc := p.Method("/sasl", "Request", "Encode")
 	if need(c, "C13.2", enc, "sasl.(*Request).Encode") {
@@ -820,6 +1140,20 @@ func c132(c *an.Ctx, p *an.Prog) {
 		for _, ci := range an.CallsTo(enc, saslPkg+".encodeLengthEncodedStrings") {
 			an.EnumPaths(enc, nil, ci, func(s *an.PathState) {
 				n++
+				// wire order: the parts handed to the frame encoder are Login, Password, Service, Realm — each at its own index
+				if els, okEls := sliceElems(s, s.CallArgs(ci)[1]); !okEls || len(els) != 4 {
+					bad = append(bad, "the request is not encoded from four locally placed parts")
+				} else {
+					for i, f := range []string{"Login", "Password", "Service", "Realm"} {
+						if els[i] == nil || els[i].StripConv().K != an.FieldLoad(s.T(enc.Params[0]), f).K {
+							got := "nothing"
+							if els[i] != nil {
+								got = els[i].K
+							}
+							bad = append(bad, fmt.Sprintf("part %d on the wire is %s, not the %s field (wire order is login, password, service, realm)", i, got, f))
+						}
+					}
+				}
 				for _, f := range []string{"Login", "Password", "Service", "Realm"} {
 					ft := an.FieldLoad(s.T(enc.Params[0]), f)
 					ok := false
@@ -886,6 +1220,26 @@ func c132(c *an.Ctx, p *an.Prog) {
 			if !okParts {
 				bad = append(bad, "success without decoding exactly four parts (error checked)")
 			}
+			// wire order: part i ends up in its own field
+			if parts != nil {
+				recv := s.T(dec.Params[0])
+				for i, f := range []string{"Login", "Password", "Service", "Realm"} {
+					var v *an.Term
+					for _, e := range s.Events {
+						if e.Kind == "store" && e.Args[0].Op == "fieldaddr" && e.Args[0].Aux == f && e.Args[0].Args[0].K == recv.K {
+							v = e.Args[1].StripConv()
+						}
+					}
+					want := fmt.Sprintf("&%s[c:%d]", parts.K, i)
+					if v == nil || !(v.Op == "load" && len(v.Args) == 1 && v.Args[0] != nil && v.Args[0].K == want) {
+						got := "not assigned"
+						if v != nil {
+							got = "assigned " + v.K
+						}
+						bad = append(bad, fmt.Sprintf("field %s is %s, not part %d of the message (wire order is login, password, service, realm)", f, got, i))
+					}
+				}
+			}
 		})
 		c.Check(len(bad) == 0 && n > 0, "C13.2", fnKey(dec)+"|empty-refused", p.Pos(dec.Pos()), "four parts; empty login and empty password refused", strings.Join(uniqS(bad), "; "))
 	}
@@ -949,29 +1303,30 @@ func scanOnlyWhileNotFull(fn *ssa.Function) []string {
 		return nil
 	}
 	for _, h := range loopHeaders(fn) {
-		// the counter: the header phi used as index of the store into parts
+		// the counter: the header phi used as index of the store into parts — or, for `for i := range parts`, the
+		// range index, which go/ssa spells phi+1 with the phi starting at -1
 		var phi *ssa.Phi
+		var idx ssa.Value
 		for _, in := range an.DeepInstrs(fn) {
 			if st, ok := in.(*ssa.Store); ok {
 				if ia, ok := st.Addr.(*ssa.IndexAddr); ok {
 					if ph, ok := ia.Index.(*ssa.Phi); ok && ph.Block() == h {
-						phi = ph
+						phi, idx = ph, ph
+					} else if bo, ok := ia.Index.(*ssa.BinOp); ok && bo.Op == token.ADD && bo.Block() == h {
+						if ph, ok := bo.X.(*ssa.Phi); ok && ph.Block() == h {
+							if k, ok := bo.Y.(*ssa.Const); ok && k.Value != nil && k.Int64() == 1 {
+								idx = bo
+							}
+						}
 					}
 				}
 			}
 		}
-		if phi == nil {
+		if idx == nil {
 			continue
 		}
 		ltLen := func(s *an.PathState, xk string) bool {
-			pk := s.T(fn.Params[1]).K
-			isLen := func(t *an.Term) bool {
-				if t == nil || !t.IsCallTo("builtin len") {
-					return false
-				}
-				lc, _ := t.CallOf()
-				return lc.Args[0].K == pk
-			}
+			isLen := func(t *an.Term) bool { return isLenOfParam(t, fn.Params[1]) }
 			for _, a := range s.Atoms {
 				if a.A == nil || a.B == nil {
 					continue
@@ -993,7 +1348,7 @@ func scanOnlyWhileNotFull(fn *ssa.Function) []string {
 			formA, nA := true, 0
 			an.EnumPathsTo(fn, h, call, nil, func(s *an.PathState) {
 				nA++
-				if !ltLen(s, s.T(phi).K) {
+				if !ltLen(s, s.T(idx).K) {
 					formA = false
 				}
 			})
